@@ -337,13 +337,13 @@ func WrapArray3(iv px.List) *Array {
 }
 
 func (av *Array) Add(ov px.Value) px.List {
-	return WrapValues(append(av.elements, ov))
+	el := make([]px.Value, len(av.elements)+1)
+	copy(el, av.elements)
+	el[len(av.elements)] = ov
+	return WrapValues(el)
 }
 
 func (av *Array) AddAll(ov px.List) px.List {
-	if ar, ok := ov.(*Array); ok {
-		return WrapValues(append(av.elements, ar.elements...))
-	}
 
 	aLen := len(av.elements)
 	sLen := aLen + ov.Len()
